@@ -134,7 +134,12 @@ impl CountVectorizerValidParams {
     ) -> HashMap<String, (usize, usize)> {
         let (min_df, max_df) = self.document_frequency();
         let len_f32 = n_documents as f32;
-        let (min_abs_df, max_abs_df) = ((min_df * len_f32) as usize, (max_df * len_f32) as usize);
+        // an entry satisfies the bounds when `min_df <= df / n <= max_df`: the smallest admissible
+        // absolute count is the minimum rounded up, the largest one is the maximum rounded down
+        let (min_abs_df, max_abs_df) = (
+            (min_df * len_f32).ceil() as usize,
+            (max_df * len_f32) as usize,
+        );
 
         let vocabulary = if min_abs_df == 0 && max_abs_df == n_documents {
             match &self.stopwords() {
